@@ -1,6 +1,8 @@
 import XlModel.Settings
 import XlModel.Protection
 import XlModel.CondFmt
+import XlModel.DvDelete
+import XlModel.DvRecord
 import XlModel.Drv.Util
 namespace XlModel.Drv.C18
 open XlModel XlModel.Settings XlModel.Drv
@@ -59,6 +61,93 @@ def showRec (r : Rec) : String :=
 def showOut : Out Rec → String
   | .ok r => "ok " ++ showRec r
   | .panic => "PANIC"
+
+/-! `dvdel <hex sqref>,<hex sqref>,... <hex delete sqref>` -/
+
+def cellLe (a b : Int × Int) : Bool := a.1 < b.1 || (a.1 == b.1 && a.2 ≤ b.2)
+
+def insertCell (x : Int × Int) : List (Int × Int) → List (Int × Int)
+  | [] => [x]
+  | y :: ys => if cellLe x y then x :: y :: ys else y :: insertCell x ys
+
+def sortCells (l : List (Int × Int)) : List (Int × Int) := l.foldr insertCell []
+
+def uniqAdj : List (Int × Int) → List (Int × Int)
+  | a :: b :: rest => if a == b then uniqAdj (b :: rest) else a :: uniqAdj (b :: rest)
+  | l => l
+
+/-- a rule's cells as a SET: sorted, duplicates removed (the harness expands the sqref into a set) -/
+def showCells (l : List (Int × Int)) : String :=
+  ",".intercalate ((uniqAdj (sortCells l)).map fun c => toString c.1 ++ "." ++ toString c.2)
+
+def mapM' {α β ε : Type} (f : α → Except ε β) : List α → Except ε (List β)
+  | [] => .ok []
+  | a :: as =>
+    match f a with
+    | .error e => .error e
+    | .ok b =>
+      match mapM' f as with
+      | .error e => .error e
+      | .ok bs => .ok (b :: bs)
+
+def runDvDel (rules : List (List Char)) (del : List Char) : String :=
+  match DvDelete.flatSqref del with
+  | .error _ => "E_DVDEL"
+  | .ok d =>
+    match mapM' DvDelete.flatSqref rules with
+    | .error _ => "E_DVDEL"
+    | .ok rs =>
+      let out := DvDelete.deleteRules rs d
+      if out.isEmpty then "ok -" else "ok " ++ ";".intercalate (out.map showCells)
+
+/-! `dvb`: build a DataValidation with the public builder methods, add it, read it back -/
+
+def showOptS : Option (List Char) → String
+  | none => "~"
+  | some v => "s=" ++ hexS v
+
+def showB (b : Bool) : String := if b then "b=1" else "b=0"
+
+def showDV (d : DvRecord.DV) : String :=
+  "AllowBlank:" ++ showB d.allowBlank ++ " Error:" ++ showOptS d.error ++ " ErrorStyle:" ++ showOptS d.errorStyle ++
+  " ErrorTitle:" ++ showOptS d.errorTitle ++ " Formula1:s=" ++ hexS d.formula1 ++ " Formula2:s=" ++ hexS d.formula2 ++
+  " Operator:s=" ++ hexS d.operator ++ " Prompt:" ++ showOptS d.prompt ++ " PromptTitle:" ++ showOptS d.promptTitle ++
+  " ShowDropDown:" ++ showB d.showDropDown ++ " ShowErrorMessage:" ++ showB d.showErrorMessage ++
+  " ShowInputMessage:" ++ showB d.showInputMessage ++ " Sqref:s=" ++ hexS d.sqref ++ " Type:s=" ++ hexS d.type
+
+def runDvb (w : List String) : String :=
+  match w with
+  | [ab, dd, form, t, o, a, b, err, et, em, inp, it, im, sq] =>
+    match t.toNat?, o.toNat?, unhexS et, unhexS em, unhexS it, unhexS im, unhexS sq with
+    | some t, some o, some et, some em, some it, some im, some sq =>
+      let d0 : DvRecord.DV := { DvRecord.newDV (ab = "1") with sqref := sq, showDropDown := (dd = "1") }
+      let d1 : Option DvRecord.DV :=
+        if form = "rs" then
+          match unhexS a, unhexS b with
+          | some a, some b => some (DvRecord.setRange d0 (.str a) (.str b) t o)
+          | _, _ => none
+        else if form = "ri" then
+          match a.toInt?, b.toInt? with
+          | some a, some b => some (DvRecord.setRange d0 (.int a) (.int b) t o)
+          | _, _ => none
+        else if form = "list" then
+          match (a.splitOn ",").mapM unhexS with
+          | some keys => some (match DvRecord.setDropListDV d0 keys with
+              | some d => d
+              | none => d0)
+          | none => none
+        else if form = "sqref" then (unhexS a).map (DvRecord.setSqrefDropList d0)
+        else none
+      match d1 with
+      | none => "bad-op"
+      | some d1 =>
+        let d2 := match err.toNat? with
+          | some st => DvRecord.setError d1 st et em
+          | none => d1
+        let d3 := if inp = "1" then DvRecord.setInput d2 it im else d2
+        "ok " ++ showDV (DvRecord.getDV (DvRecord.addDV d3))
+    | _, _, _, _, _, _, _ => "bad-op"
+  | _ => "bad-op"
 
 /-- split a word list at the `|` separators -/
 def splitBar (ws : List String) : List (List String) :=
@@ -269,6 +358,11 @@ def step (st : St) (w : List String) : St × String :=
   | ["fpn", a, b] =>
     match a.toNat?, b.toNat? with
     | some a, some b => (st, "ok " ++ toString (getFirstPage (setFirstPage (setFirstPage none a) b)))
+    | _, _ => (st, "bad-op")
+  | "dvb" :: rest => (st, runDvb rest)
+  | ["dvdel", rs, d] =>
+    match (rs.splitOn ",").mapM unhexS, unhexS d with
+    | some rules, some del => (st, runDvDel rules del)
     | _, _ => (st, "bad-op")
   | ["cfnew"] => ({ st with cf := [] }, "ok")
   | ["cfset", sheet, r, n, _] =>
